@@ -68,7 +68,8 @@ class Choices:
 
 class Actor:
     __slots__ = ('name', 'proc', 'sem', 'pred', 'done', 'killed', 'thread',
-                 'nyield', 'started', 'order', 'pending_exc', 'is_main')
+                 'nyield', 'started', 'order', 'pending_exc', 'is_main',
+                 'tidx')
 
     def __init__(self, name, proc, order):
         self.name = name
@@ -86,6 +87,9 @@ class Actor:
         self.order = order
         self.pending_exc = None
         self.is_main = False
+        # 0 = the initial thread of its process; >0 = a thread started by the
+        # program under test inside that process
+        self.tidx = 0
 
 
 class Proc:
